@@ -60,6 +60,17 @@ CHECKS.update({
         ref="DESIGN.md 4 C11"),
 })
 
+CHECKS.update({
+    "C04": dict(
+        text="The real merger.c/heap.c are run over harness array sources (which invalidate previously returned buffers on every call) for families of 0..3 sources covering interleaved, overlapping, disjoint and empty sources, the empty key, prefixes and 0xff; every value byte is a solver variable, so 'each value folded exactly once' is decided for all values; merge function, none, dupsort and a failing merge callback; full drain. Found F2 (fixed).",
+        note="Keys are concrete (a symbolic key would make the heap order symbolic); input sources are contract models of the reader (C02/C03 check the reader against that contract); mtbl_merge tool not encoded.",
+        ref="DESIGN.md 4 C04"),
+    "C05": dict(
+        text="Merger iterators of all four kinds over 2..3 sources: seek to every interesting concrete target around the key set from every iterator position, pairs of seeks (forward/backward, same key twice, seek to the key just returned), get/get_prefix/get_range through the merger source; compared with a single-table oracle; values symbolic. Found F8 (fixed).",
+        note="Targets are enumerated (shape), not solver variables; the solver decides the value flow and buffer validity. <= 5 entries, <= 2 seeks per history.",
+        ref="DESIGN.md 4 C05"),
+})
+
 NOT_APPLICABLE = {
     "C14": "needs an engine that explores/over-approximates all executions of pointer-sharing pthread code and decides happens-before; CBMC 6.11 stops on threadpool.c ('pointer handling for concurrency is unsound'), no other such engine is installed (DESIGN.md 4 C14)",
 }
